@@ -389,6 +389,8 @@ class Model(Object):
             "notes",
             "annotation",
             "groups",
+            # the copy is built outside of any context of the original
+            "_contexts",
         }
         # mutable containers must not be shared between the two models
         copy_deep = {"notes", "_annotation", "_compartments", "_sbml"}
